@@ -23,6 +23,8 @@ func rulesC16(c *Ctx) {
 	ruleResolvedSnapshots(c)
 	ruleResolvedCalls(c)
 	ruleServerRegistersHooks(c)
+	ruleOptionProbes(c, "server", 5) // the hook options are found by their own probes
+	ruleServerWiring(c, []string{"WithPostChangeRIBHook", "WithRIBResolvedEntryHook", "WithVRFs"})
 }
 
 // R16.2
